@@ -165,6 +165,51 @@ def history(draw, classes=('DynGraph', 'DynDiGraph'), removal=(True,), kinds=Non
             k = draw(st.integers(1, 3))
             op = ['nodes_from', draw(st.lists(st.integers(0, nn - 1), min_size=k, max_size=k)),
                   draw(ATTRS) if attrs else {}]
+        elif kind == 'reject':
+            keys = [k for k in model.keys() if model.latest_run(k) is not None]
+            if not keys:
+                ui, vi = draw(st.integers(0, nn - 1)), draw(st.integers(0, nn - 1))
+                op = ['add', ui, vi, base + draw(st.integers(0, horizon)), None]
+            else:
+                k = keys[draw(st.integers(0, len(keys) - 1))]
+                u, v = model.ends(k)
+                ui, vi = dn_nodes.index(u), dn_nodes.index(v)
+                if cls == 'DynGraph' and draw(st.booleans()):
+                    ui, vi = vi, ui
+                s0 = model.latest_run(k)[0]
+                t = s0 - 1 - draw(st.integers(0, 3))
+                e = t + draw(st.integers(1, 6)) if draw(st.booleans()) else None
+                form = draw(st.sampled_from(['add', 'add', 'add_from', 'add_from', 'path', 'star']))
+                if form == 'add':
+                    op = ['add', ui, vi, t, e]
+                elif form == 'add_from':
+                    pre = [[draw(st.integers(0, nn - 1)), draw(st.integers(0, nn - 1))] for _ in range(draw(st.integers(0, 2)))]
+                    post = [[draw(st.integers(0, nn - 1)), draw(st.integers(0, nn - 1))] for _ in range(draw(st.integers(0, 1)))]
+                    op = ['add_from', pre + [[ui, vi]] + post, t, e if bulk_e else None]
+                elif form == 'path':
+                    x = draw(st.integers(0, nn - 1))
+                    fm = draw(st.sampled_from(['m', 'f']))
+                    op = ['path', [x, ui, vi] if draw(st.booleans()) else [ui, vi, x], t, fm, e if (fm == 'f' and bulk_e) else None]
+                else:
+                    x = draw(st.integers(0, nn - 1))
+                    fm = 'f' if cls == 'DynDiGraph' else draw(st.sampled_from(['m', 'f']))
+                    op = ['star', [ui, x, vi], t, fm, e if (fm == 'f' and bulk_e) else None]
+        elif kind == 'recip':
+            # the reverse of an existing arc/pair, positioned relative to the *forward* timeline
+            keys = model.keys()
+            if not keys:
+                op = ['add', draw(st.integers(0, nn - 1)), draw(st.integers(0, nn - 1)), base + draw(st.integers(0, horizon)), None]
+            else:
+                u, v = model.ends(keys[draw(st.integers(0, len(keys) - 1))])
+                ui, vi = dn_nodes.index(v), dn_nodes.index(u)
+                fr = model.latest_run(model.key(u, v))
+                rk = model.key(v, u)
+                rr = model.latest_run(rk)
+                t = fr[0] + draw(st.integers(-2, 3))
+                if rr is not None and t < rr[0]:
+                    t = rr[0] + draw(st.integers(0, 3))
+                e = t + draw(st.integers(1, 4)) if draw(st.booleans()) else None
+                op = ['add', ui, vi, t, e]
         elif kind == 'missing_t':
             if draw(st.booleans()):
                 op = ['add_not', draw(st.integers(0, nn - 1)), draw(st.integers(0, nn - 1))]
